@@ -311,15 +311,20 @@ def shared_pairs(cell, P, Q2, Z, A):
     configuration, one target) vs the list of a run that has only this point: [(label, shared-run weight, single-point-run weight)]."""
     import yadism.coefficient_functions as cf
 
-    def build():
+    def build(target=None):
         cc = cm.make_coupling(P, cell["process"], cell["pid"])
         return cm.make_configs(cc, pto=cell["pto"], pto_evol=min(cell["pto"], 2), scheme=cell["scheme"], nf_ff=cell["nf"], ZMq=cell["ZMq"],
-                               m2hq=cm.M2HQ, threshold=cell["nf"], target={"Z": Z, "A": A})
+                               m2hq=cm.M2HQ, threshold=cell["nf"], target=target if target is not None else {"Z": Z, "A": A})
 
     def form(cfg, x):
         return cm.linear_form(cf.Combiner(cm.make_esf(cfg, cell["obs"], x, Q2)).collect_elems())
 
-    shared = build()
+    # an EARLIER run of the process was made for another target with the very dict object the caller then edited in place and handed to this run
+    # (cards are plain dicts; the upgrade layer copies them shallowly): what a run does is a function of the values it is given, not of identities
+    tdict = {"Z": A - Z, "A": A}
+    form(build(tdict), 0.2)
+    tdict["Z"] = Z
+    shared = build(tdict)
     runs = [form(shared, x) for x in (0.1, 0.3, 0.1)]
     out = []
     for i, x in ((1, 0.3), (2, 0.1)):
